@@ -53,6 +53,7 @@ TRIG = {
     "attribute": "![a](b){width=1x}\n",
     "substitution": "{{ undefined_var }}\n",
     "footnote": "[^u]: unref\n",
+    "slug_link_warned_heading": "## Warned {norole}`x` head\n\nunder\n\n[](#warned--head)\n",  # empty link text filled from a heading that holds a warning
     "deflist_term": "{#dlid}\nTerm {norole}`x`\n: definition\n\n[](#dlid)\n",  # implicit link text taken from a term that holds a warning
     "field_name": "{#flid}\n:field {norole}`y`: body\n\n[](#flid)\n",
     "deprecated_ext": "![a](b.png){width=10px}\n",  # needs attrs_image among the extensions (added by run)
@@ -68,7 +69,7 @@ EXPECT = {
     "strikethrough": {"myst.strikethrough"}, "html": {"myst.html"},
     "attribute": {"myst.attribute"}, "substitution": {"myst.substitution"}, "footnote": {"ref.footnote"},
     "topmatter": {"myst.topmatter"}, "heading_slug": {"myst.heading_slug"},
-    "deflist_term": {"myst.role_unknown"}, "field_name": {"myst.role_unknown"}, "deprecated_ext": {"myst.deprecated"},
+    "slug_link_warned_heading": {"myst.role_unknown"}, "deflist_term": {"myst.role_unknown"}, "field_name": {"myst.role_unknown"}, "deprecated_ext": {"myst.deprecated"},
 }
 
 
